@@ -92,12 +92,19 @@ fn unwind_drop_outcome(n: usize) -> Sx {
     })
 }
 
-pub fn gen_case(r: &mut Rng, pool: &SpanPool) -> (Sx, String, usize, &'static str) {
+/// what a history has produced so far; kept outside `gen_case` so that a panic inside an operation
+/// (which no operation of the unchanged code does) still leaves a case and a trace to report
+#[derive(Default)]
+pub struct Partial {
+    pub ops: Vec<Sx>,
+    pub trace: Vec<Sx>,
+}
+
+pub fn gen_case(r: &mut Rng, pool: &SpanPool, partial: &std::cell::RefCell<Partial>) -> (Sx, String, usize, &'static str) {
     let n_ops = r.below(16);
     let mut counter = 0usize;
-    let mut ops: Vec<Sx> = vec![];
-    let mut trace: Vec<Sx> = vec![];
-    let mut acc: Option<Accumulator> = Some(Error::accumulator());
+    // both public ways to obtain an accumulator
+    let mut acc: Option<Accumulator> = Some(if r.chance(1, 3) { Accumulator::default() } else { Error::accumulator() });
     let mut recorded = 0usize;
     // a generator bias: half of the histories record nothing, so that the Ok side is exercised
     let quiet = r.chance(2, 5);
@@ -109,13 +116,13 @@ pub fn gen_case(r: &mut Rng, pool: &SpanPool) -> (Sx, String, usize, &'static st
             let (e, s) = gen_err(r, pool, &mut counter, 2);
             a.push(e);
             recorded += 1;
-            ops.push(tagged("push", vec![s]));
-            trace.push(atom("unit"));
+            partial.borrow_mut().ops.push(tagged("push", vec![s]));
+            partial.borrow_mut().trace.push(atom("unit"));
         } else if w < 35 {
             let v = r.below(100);
             let got = a.handle(Ok::<usize, Error>(v));
-            ops.push(tagged("hok", vec![nat(v as u128)]));
-            trace.push(match got {
+            partial.borrow_mut().ops.push(tagged("hok", vec![nat(v as u128)]));
+            partial.borrow_mut().trace.push(match got {
                 Some(v) => tagged("some", vec![nat(v as u128)]),
                 None => none(),
             });
@@ -123,16 +130,16 @@ pub fn gen_case(r: &mut Rng, pool: &SpanPool) -> (Sx, String, usize, &'static st
             let (e, s) = gen_err(r, pool, &mut counter, 2);
             let got = a.handle(Err::<usize, Error>(e));
             recorded += 1;
-            ops.push(tagged("herr", vec![s]));
-            trace.push(match got {
+            partial.borrow_mut().ops.push(tagged("herr", vec![s]));
+            partial.borrow_mut().trace.push(match got {
                 Some(v) => tagged("some", vec![nat(v as u128)]),
                 None => none(),
             });
         } else if w < 60 {
             let v = r.below(100);
             let got = a.handle_in(|| Ok::<usize, Error>(v));
-            ops.push(tagged("hiok", vec![nat(v as u128)]));
-            trace.push(match got {
+            partial.borrow_mut().ops.push(tagged("hiok", vec![nat(v as u128)]));
+            partial.borrow_mut().trace.push(match got {
                 Some(v) => tagged("some", vec![nat(v as u128)]),
                 None => none(),
             });
@@ -140,8 +147,8 @@ pub fn gen_case(r: &mut Rng, pool: &SpanPool) -> (Sx, String, usize, &'static st
             let (e, s) = gen_err(r, pool, &mut counter, 2);
             let got = a.handle_in(|| Err::<usize, Error>(e));
             recorded += 1;
-            ops.push(tagged("hierr", vec![s]));
-            trace.push(match got {
+            partial.borrow_mut().ops.push(tagged("hierr", vec![s]));
+            partial.borrow_mut().trace.push(match got {
                 Some(v) => tagged("some", vec![nat(v as u128)]),
                 None => none(),
             });
@@ -155,18 +162,34 @@ pub fn gen_case(r: &mut Rng, pool: &SpanPool) -> (Sx, String, usize, &'static st
                 sxs.push(s);
             }
             recorded += k;
-            a.extend(es);
-            ops.push(tagged("extend", sxs));
-            trace.push(atom("unit"));
+            // every kind of iterator `Extend` may be handed: exact-size, filtered (upper bound only),
+            // unbounded size hint (`from_fn`), and darling's own `IntoIter` of a bundle
+            match r.below(4) {
+                0 => a.extend(es),
+                1 => a.extend(es.into_iter().filter(|_| true)),
+                2 => {
+                    let mut it = es.into_iter();
+                    a.extend(std::iter::from_fn(move || it.next()));
+                }
+                _ => {
+                    if es.len() >= 2 {
+                        a.extend(Error::multiple(es));
+                    } else {
+                        a.extend(es);
+                    }
+                }
+            }
+            partial.borrow_mut().ops.push(tagged("extend", sxs));
+            partial.borrow_mut().trace.push(atom("unit"));
         } else {
-            ops.push(tagged("checkpoint", vec![]));
+            partial.borrow_mut().ops.push(tagged("checkpoint", vec![]));
             match acc.take().unwrap().checkpoint() {
                 Ok(fresh) => {
                     acc = Some(fresh);
-                    trace.push(atom("fresh"));
+                    partial.borrow_mut().trace.push(atom("fresh"));
                 }
                 Err(e) => {
-                    trace.push(tagged("err", vec![obs_err(&e)]));
+                    partial.borrow_mut().trace.push(tagged("err", vec![obs_err(&e)]));
                     break;
                 }
             }
@@ -241,12 +264,13 @@ pub fn gen_case(r: &mut Rng, pool: &SpanPool) -> (Sx, String, usize, &'static st
             },
             _ => unreachable!(),
         };
-        trace.push(out);
+        partial.borrow_mut().trace.push(out);
     }
     let _ = Unwinder;
+    let p = partial.borrow();
     (
-        tagged("hist", vec![list(ops), end]),
-        tagged("trace", trace).render(),
+        tagged("hist", vec![list(p.ops.clone()), end]),
+        tagged("trace", p.trace.clone()).render(),
         recorded,
         end_kind,
     )
@@ -259,7 +283,18 @@ pub fn run(seed: u64, n: usize, out: &mut Out) {
     let mut ends = std::collections::BTreeMap::<&'static str, u64>::new();
     for i in 0..n {
         let mut r = base.fork(i as u64);
-        let (case, ans, recorded, end_kind) = gen_case(&mut r, &pool);
+        let partial = std::cell::RefCell::new(Partial::default());
+        let res = catch_unwind(AssertUnwindSafe(|| gen_case(&mut r, &pool, &partial)));
+        let (case, ans, recorded, end_kind) = match res {
+            Ok(x) => x,
+            Err(_) => {
+                // an operation itself panicked: report the history so far, ended by `finish`
+                let p = partial.borrow();
+                let mut trace = p.trace.clone();
+                trace.push(atom("operation-panicked"));
+                (tagged("hist", vec![list(p.ops.clone()), tagged("finish", vec![])]), tagged("trace", trace).render(), 0, "panicked")
+            }
+        };
         if recorded > 0 {
             with_errors += 1;
         }
